@@ -13,6 +13,11 @@ use crate::{
 
 const STACK_LIMIT: usize = 32;
 
+/// The maximum depth to which expressions and statements can be nested
+/// within a single statement. This keeps us from overflowing the native
+/// stack, since we evaluate them recursively.
+const NESTING_LIMIT: usize = 48;
+
 #[derive(Debug, Default, Copy, Clone, PartialEq)]
 pub enum ProgramLine {
     #[default]
@@ -100,6 +105,7 @@ pub struct Program {
     loop_stack: Vec<LoopInfo>,
     data_iterator: Option<DataIterator>,
     functions: HashMap<Symbol, FunctionDefinition>,
+    nesting: usize,
 }
 
 impl Program {
@@ -383,6 +389,24 @@ impl Program {
             }
         }
         None
+    }
+
+    /// Registers that we're about to evaluate a nested expression or statement,
+    /// returning an error if we're already nested too deeply.
+    ///
+    /// If this succeeds, it must be followed by a call to `exit_nested` once the
+    /// nested expression or statement has been evaluated, even if that failed.
+    pub fn enter_nested(&mut self) -> Result<(), TracedInterpreterError> {
+        if self.nesting == NESTING_LIMIT {
+            return Err(OutOfMemoryError::StackOverflow.into());
+        }
+        self.nesting += 1;
+        Ok(())
+    }
+
+    /// Registers that we've finished evaluating a nested expression or statement.
+    pub fn exit_nested(&mut self) {
+        self.nesting -= 1;
     }
 
     /// Returns the line number currently being evaluated.
